@@ -249,7 +249,12 @@ class UnNumberedAcknowledgmentFrame(BaseHdlcFrame):
 
         information = frame_bytes[hcs_position + 2 : -3]
 
-        frame = cls(destination_address, source_address, information)
+        frame = cls(
+            destination_address,
+            source_address,
+            information,
+            segmented=frame_format.segmented,
+        )
 
         if not frame_has_correct_check_sequences(frame_bytes, hcs_position):
             raise hdlc_exceptions.HdlcParsingError("HCS or FCS is not correct")
@@ -318,6 +323,7 @@ class ReceiveReadyFrame(BaseHdlcFrame):
             destination_address=destination_address,
             source_address=source_address,
             receive_sequence_number=control.receive_sequence_number,
+            segmented=frame_format.segmented,
             final=control.is_final,
         )
 
@@ -459,7 +465,9 @@ class DisconnectFrame(BaseHdlcFrame):
 
         fcs = frame_bytes[-3:-1]
 
-        frame = cls(destination_address, source_address)
+        frame = cls(
+            destination_address, source_address, segmented=frame_format.segmented
+        )
 
         if not frame_has_correct_check_sequences(frame_bytes):
             raise hdlc_exceptions.HdlcParsingError("FCS is not correct")
